@@ -652,6 +652,39 @@ static int list_delete(vnaproperty_t *list, int index)
 }
 
 
+/*
+ * map_get: return the value of key without allocating (NULL if absent or null)
+ *   @map: pointer to map element
+ *   @key: search key (not quoted)
+ */
+static vnaproperty_t *map_get(const vnaproperty_t *map, const char *key)
+{
+    vnaproperty_map_t *vpmp = (vnaproperty_map_t *)map;
+    vnaproperty_map_element_t **anchor;
+
+    if (vpmp->vpm_hash_size == 0) {
+	return NULL;
+    }
+    if (!map_find_anchor(vpmp, &anchor, key,
+		crc32c(-1, (void *)key, strlen(key)))) {
+	return NULL;
+    }
+    return (*anchor)->vme_pair.vmpr_value;
+}
+
+/*
+ * list_get: return the element at index without allocating
+ *   @list: pointer to list element
+ *   @index: index in 0..count-1
+ */
+static vnaproperty_t *list_get(const vnaproperty_t *list, int index)
+{
+    vnaproperty_list_t *vplp = (vnaproperty_list_t *)list;
+
+    return vplp->vpl_vector[index];
+}
+
+
 /***********************************************************************
  * Property Scanner & Parser
  **********************************************************************/
@@ -2084,7 +2117,7 @@ static int dfs_copy(vnaproperty_t **destination, const vnaproperty_t *source)
 		free((void *)key);
 		return -1;
 	    }
-	    new_source = vnaproperty_get_subtree(source, "%s", key);
+	    new_source = map_get(source, *cpp);
 	    if (dfs_copy(new_destination, new_source) == -1) {
 		free((void *)keys);
 		free((void *)key);
@@ -2099,7 +2132,7 @@ static int dfs_copy(vnaproperty_t **destination, const vnaproperty_t *source)
 	if (vnaproperty_set_subtree(destination, "[]") == NULL) {
 	    return -1;
 	}
-	count = vnaproperty_count(source, ".");
+	count = list_count(source);
 	for (int i = 0; i < count; ++i) {
 	    vnaproperty_t **new_destination, *new_source;
 
@@ -2107,7 +2140,7 @@ static int dfs_copy(vnaproperty_t **destination, const vnaproperty_t *source)
 	    if (new_destination == NULL) {
 		return -1;
 	    }
-	    new_source = vnaproperty_get_subtree(source, "[%d]", i);
+	    new_source = list_get(source, i);
 	    if (dfs_copy(new_destination, new_source) == -1) {
 		return -1;
 	    }
@@ -2140,7 +2173,8 @@ void _vnaproperty_free_tree(vnaproperty_t **rootptr)
  */
 int vnaproperty_copy(vnaproperty_t **destination, const vnaproperty_t *source)
 {
-    (void)vnaproperty_delete(destination, ".");
+    vnaproperty_free(*destination);
+    *destination = NULL;
     return dfs_copy(destination, source);
 }
 
@@ -2404,9 +2438,9 @@ int _vnaproperty_yaml_export(vnaproperty_yaml_t *vymlp,
 	    const char *value;
 	    yaml_scalar_style_t style = YAML_ANY_SCALAR_STYLE;
 
-	    if ((value = vnaproperty_get(root, ".")) == NULL) {
+	    if ((value = scalar_get(root)) == NULL) {
 		_vnaproperty_yaml_error(vymlp, VNAERR_INTERNAL,
-			"%s: _vnaproperty_get: %s: %s",
+			"%s: scalar_get: %s: %s",
 			__func__, vymlp->vyml_filename, strerror(errno));
 		return -1;
 	    }
@@ -2459,7 +2493,7 @@ int _vnaproperty_yaml_export(vnaproperty_yaml_t *vymlp,
 		    free((void *)keys);
 		    return -1;
 		}
-		subtree = vnaproperty_get_subtree(root, "%s", key);
+		subtree = map_get(root, *cpp);
 		if ((value = _vnaproperty_yaml_export(vymlp, subtree)) == -1) {
 		    free((void *)keys);
 		    free((void *)key);
@@ -2479,7 +2513,7 @@ int _vnaproperty_yaml_export(vnaproperty_yaml_t *vymlp,
     case VNAPROPERTY_LIST:
 	{
 	    int sequence;
-	    int count = vnaproperty_count(root, "[]");
+	    int count = list_count(root);
 
 	    errno = 0;
 	    if ((sequence = yaml_document_add_sequence(document, NULL,
@@ -2496,7 +2530,7 @@ int _vnaproperty_yaml_export(vnaproperty_yaml_t *vymlp,
 		vnaproperty_t *subtree;
 		int value;
 
-		subtree = vnaproperty_get_subtree(root, "[%d]", i);
+		subtree = list_get(root, i);
 		if ((value = _vnaproperty_yaml_export(vymlp, subtree)) == -1) {
 		    return -1;
 		}
